@@ -398,6 +398,11 @@ class Encoder(object):
             self.fn_atoms[key] = v
             return v
         v = self.aux(name)
+        # functional consistency with the atoms of the same function already present
+        for k2, v2 in self.fn_atoms.items():
+            if k2.args[0] == name and len(k2.args) == len(n.args) and not name.startswith('uf:'):
+                same = z3.And(*[self.memo[x] == y for x, y in zip(k2.args[1:], zargs)])
+                self.axioms.append(z3.Implies(same, v == v2))
         self.fn_atoms[key] = v
         a = zargs[0] if zargs else None
         if name == 'log':
@@ -406,11 +411,6 @@ class Encoder(object):
             self.axioms.append(z3.Implies(a > 0, z3.And(z3.Implies(a > 1, v > 0),
                                                         z3.Implies(a == 1, v == 0),
                                                         z3.Implies(a < 1, v < 0))))
-            # log(x) for x another atom's argument: equal args -> equal values
-            for k2, v2 in self.fn_atoms.items():
-                if k2 is not key and k2.args[0] == 'log':
-                    a2 = self.memo[k2.args[1]]
-                    self.axioms.append(z3.Implies(a == a2, v == v2))
         elif name in ('sin', 'cos'):
             self.axioms.append(z3.And(v >= -1, v <= 1))
             other = T.func('cos' if name == 'sin' else 'sin', args[0])
